@@ -205,9 +205,29 @@ func c06BasicProvenance(c *core.Ctx, rule string, f *flow.Func, matches []*ast.C
 	seenFn := map[*types.Func]bool{}
 	var examine func(g *flow.Func, roots []ast.Expr, depth int)
 	examine = func(g *flow.Func, roots []ast.Expr, depth int) {
+		// a same-package helper that decodes inside is a barrier for its arguments (they are
+		// the undecoded header), while its results are followed
+		decodesInside := func(call *ast.CallExpr) bool {
+			fo, ok := g.Callee(call).(*types.Func)
+			if !ok || fo.Pkg() != g.Pkg.Types {
+				return false
+			}
+			h := c06FuncDeclOf(c, fo)
+			if h == nil {
+				return false
+			}
+			for _, hh := range reach(h, 2) {
+				for _, cl := range calls(hh.Body, true) {
+					if c06IsDecode(hh, cl) {
+						return true
+					}
+				}
+			}
+			return false
+		}
 		stop := func(n ast.Node) bool {
 			call, ok := n.(*ast.CallExpr)
-			return ok && c06IsDecode(g, call)
+			return ok && (c06IsDecode(g, call) || decodesInside(call))
 		}
 		for _, e := range c06ValueClosureStop(g, roots, stop) {
 			ast.Inspect(e, func(x ast.Node) bool {
@@ -249,6 +269,10 @@ func c06BasicProvenance(c *core.Ctx, rule string, f *flow.Func, matches []*ast.C
 							badAt, badName = call, o.FullName()
 						}
 					case o.Pkg() == g.Pkg.Types:
+						// a same-package helper is followed through its results; its arguments
+						// matter only as far as the helper's results are computed from the
+						// corresponding parameter outside the decoder (`basicCredentials(hdr)`
+						// decodes inside: the header handed in is not the credential string)
 						if depth < 2 && !seenFn[o] {
 							seenFn[o] = true
 							if h := c06FuncDeclOf(c, o); h != nil {
@@ -279,6 +303,9 @@ func c06BasicProvenance(c *core.Ctx, rule string, f *flow.Func, matches []*ast.C
 								})
 								examine(h, rets, depth+1)
 							}
+						}
+						if decodesInside(call) {
+							return false // its arguments are what is decoded, not the credentials
 						}
 					default:
 						if unknownAt == nil {
